@@ -28,14 +28,14 @@ CONSTANTS
 
 -----------------------------------------------------------------------------
 (* What the parser records *)
-IsTrailer(nd) == nd.k \in {"text", "expr", "void", "el", "gocode"}
+IsTrailer(nd) == nd.k \in {"text", "expr", "void", "el", "gocode", "gocodeml"}
 
 \* a text whose horizontal trailing space is kept inside its value
 HasSp(nd) == nd.k = "text" /\ (IF "sp" \in DOMAIN nd THEN nd.sp ELSE nd.tr = "h")
 
 \* TrailingSpace as recorded by the parser
 Trailing(nd) == CASE nd.k = "text"   -> IF nd.tr = "h" THEN "" ELSE nd.tr
-                  [] nd.k = "gocode" -> "v"
+                  [] nd.k \in {"gocode", "gocodeml"} -> "v"
                   [] OTHER           -> nd.tr
 
 \* a Whitespace node follows nd in its sibling list
@@ -51,7 +51,7 @@ SpansLines(el) ==
        \/ \E i \in 1..Len(el.kids) :
             LET kd == el.kids[i] IN
             \/ WsAfter(kd) = "v"
-            \/ kd.k \in {"if", "for", "switch", "callb", "gcomment"}
+            \/ kd.k \in {"if", "for", "switch", "callb", "gcomment", "gocodeml"}
             \/ HasCondAttr(kd)
             \/ (kd.k = "el" /\ SpansLines(kd))
 
@@ -66,7 +66,7 @@ AlwaysBreakAfter(nd) == nd.k = "void" /\ nd.name \in {"br", "hr"}
 SetWs(nd, d) ==
     CASE nd.k = "text" -> [k |-> "text", w |-> nd.w, tr |-> d, sp |-> HasSp(nd)]
       [] nd.k \in {"expr", "void", "el"} -> [nd EXCEPT !.tr = d]
-      [] nd.k \in {"slot", "hcomment", "raw"} -> [nd EXCEPT !.after = d]
+      [] nd.k \in {"slot", "hcomment", "mcomment", "raw"} -> [nd EXCEPT !.after = d]
       [] OTHER -> nd      \* line-start nodes always end their line
 
 Decision(nodes, i, indent) ==
